@@ -7,6 +7,7 @@ import (
 	"net"
 	"sort"
 	"strconv"
+	"sync"
 	"time"
 
 	"google.golang.org/grpc"
@@ -30,6 +31,10 @@ type RawNode struct {
 
 	// the default channel
 	channel *channel
+
+	// protects conn and closed; the node may be closed while its channel dials again
+	connMut sync.Mutex
+	closed  bool
 }
 
 // NewRawNode returns a new node for the provided address.
@@ -73,6 +78,11 @@ func (n *RawNode) connect(mgr *RawManager) error {
 
 // dial the node and close the current connection.
 func (n *RawNode) dial() error {
+	n.connMut.Lock()
+	defer n.connMut.Unlock()
+	if n.closed {
+		return fmt.Errorf("node closed")
+	}
 	if n.conn != nil {
 		// close the current connection before dialing again.
 		n.conn.Close()
@@ -106,6 +116,9 @@ func (n *RawNode) close() error {
 	// important to cancel first to stop goroutines
 	n.cancel()
 	verifPoint("cls.cancelled", n.channel)
+	n.connMut.Lock()
+	defer n.connMut.Unlock()
+	n.closed = true
 	if n.conn == nil {
 		return nil
 	}
